@@ -2,3 +2,11 @@ add("C01", "Hypothesis-generated .dec ASTs rendered with drawn layout vs referen
     "Random search over the statement language (structure first, text second) with an oracle that never parses text; every table, line and field compared in both directions. Sampling, not proof: the class histogram in the evidence shows where samples fell.",
     "Trusted: the reference interpreter pbt/decref.py (about 200 lines, written from the property statement), the renderer, Hypothesis, the particle package's name tables as a label source.",
     "DESIGN.md 4 C01")
+add("C04", "exhaustive enumeration of the EvtGen and PDG name tables + Hypothesis final states/decay modes vs PDG-ID reference; cross-layer check through CDecay",
+    "The two name tables are enumerated completely (exhaustive for the installed particle data); final states, decay modes and the CDecay route are sampled with Hypothesis against a multiset image computed from the ID tables.",
+    "Trusted: particle's EvtGenName2PDGIDBiMap / PDG2EvtGenNameMap / EvtGen2PDGNameMap and Particle.is_self_conjugate.",
+    "DESIGN.md 4 C04")
+add("C06", "exhaustive enumeration of the 135 model names x position contexts and all prefix pairs + Hypothesis user-registered names / near-miss words",
+    "Every published name in every position context and every prefix pair is parsed and compared (exhaustive over that finite space, with 4 fixed sets of registered names); registered-name combinations, registration timing and rejection of near-miss words are sampled.",
+    "Trusted: pinned list pbt/data/models.txt; the lexical rules of DESIGN.md 3.1 for building safe neighbouring labels.",
+    "DESIGN.md 4 C06")
